@@ -43,6 +43,9 @@ type VerifTracker struct {
 	// counted as an observation
 	AfterAppRelease int
 	inTracker  bool
+	// Points: every *Message method entry is a scheduling point (only for dedicated small scenarios:
+	// it makes races between a reader of a message and a concurrent release visible to the explorer)
+	Points bool
 }
 
 // VerifTrack is nil unless a harness switched the tracker on for the current execution.
@@ -100,6 +103,9 @@ func verifLive(m *Message, method string) {
 	if t == nil || m == nil || t.inTracker || vrt.Killed() {
 		return
 	}
+	if t.Points {
+		vrt.PointAtomic("pool.Message." + method)
+	}
 	t.Checks++
 	if st := t.state[m]; st != nil && st.dead {
 		if st.byApp && verifCallSite() != "harness(application)" {
@@ -144,6 +150,12 @@ func verifRelease(m *Message) bool {
 	st.dead = true
 	st.releaseAt = verifCallSite()
 	st.byApp = st.releaseAt == "harness(application)"
+	// what the real pool does to a recycled object (the object itself stays quarantined): a later
+	// reader sees a reset message, e.g. whatever Reset() leaves in the hijack flag
+	t.inTracker = true
+	m.Reset()
+	m.ctx = nil
+	t.inTracker = false
 	t.Released++
 	return true
 }
